@@ -40,7 +40,7 @@ def invalid_mutations(r, p, ng):
     ]
 
 
-EDIT_CHARS = "()[]{}|*+?\\^$-,0:."
+EDIT_CHARS = "()[]{}|*+?\\^$-,0:. _"
 
 
 def edit_neighbourhood(r, p, limit):
@@ -58,7 +58,7 @@ def edit_neighbourhood(r, p, limit):
 
 EDIT_SEEDS = ["(a*){1,2}b", "(a?){2,5}", "(a|){0,3}", "(){1,2}", "^{1,2}a", "a${0,3}", "[a-z-[aeiou]]x", "[a-[b]]+", "^[\\w-[\\d]]$", "[a-[b]]|c",
               "([a-z-[m-p]])", "[^a-[b]]", "a{2,3}", "(ab){0,2}", "x[a-z]{10,12}", "(a{0}b{0})c", "x|a{0}b{0}", "(^*$?)a", "\\p{Lu}{1,2}", "(a)\\1{2,3}",
-              "(?:a|b)*?c", "[\\-a]", "[a--[b]]", "a|(b|(c|d))", "\\$\\^\\.", "(a)(b)\\2\\1"]
+              "(?:a|b)*?c", "[\\-a]", "[a--[b]]", "\\p{IsBasicLatin}", "\\P{IsGreek}x", "[\\p{IsBasicLatin}-[a]]", "\\p{Lu}", "(?:x)(a)\\1", "(a)(?:b)(c)\\2", "a|(b|(c|d))", "\\$\\^\\.", "(a)(b)\\2\\1"]
 
 
 def c07_streams(ctx):
@@ -1273,6 +1273,16 @@ def c19_streams(ctx):
             if r.random() < 0.3 and "(c)" in p:
                 s = "abcdefghij" + r.choice(["j", "a0", "a", "1"])
             gs.append(Group([Case(p, f, "is_match", s), Case(p, f, "analyze", s)], {"features": features(ast), "input": s, "ast": ast, "flags": f}))
+    # flag i with cased letters outside ASCII: the copy in the other case
+    for letters in ["éÉ", "дД", "σΣ", "üÜ", "aA"]:
+        lo, up = letters
+        for p in ["(%s)\\1" % lo, "^(%s+)-\\1$" % lo, "(%s|x)\\1\\1" % lo, "(?:(%s)|y)+\\1" % lo]:
+            ast = parse_simple(p)
+            if ast is None:
+                continue
+            for s in [lo + up, up + lo, lo + lo, lo + "-" + up, lo + lo + "-" + up + lo, lo + up + lo, "x" + lo + up]:
+                for f in ("i", ""):
+                    gs.append(Group([Case(p, f, "is_match", s), Case(p, f, "analyze", s)], {"features": features(ast), "input": s, "ast": ast, "flags": f}))
     # generated patterns with back-references
     for i in range(ctx.scale(1200, 15000)):
         ast, p, alpha = gen_pattern(ctx, allow_backref=True, maxgroups=3)
